@@ -58,6 +58,8 @@ def graphemes (U : UFacts) (s : Bytes) : List Bytes := Utf8.graphemes U.gFirst s
 
 inductive Form where
   | full      -- `Inner::Full(Ptr<String>)`: a whole shared string
+  | fullV     -- the same, for a tree in which requests/C15-fix-1.diff is applied
+              -- (`StringSlice::new` validates its bounds); not produced for the current code
   | slice     -- `Inner::Slice(StringSlice<u16>)`
   | large     -- `Inner::SliceLarge(Ptr<StringSlice<usize>>)`
   deriving DecidableEq, Repr
@@ -76,6 +78,9 @@ namespace KStr
 
 /-- `From<String> for KString` -/
 def ofString (bs : Bytes) : KStr := ⟨bs, 0, bs.length, .full⟩
+
+/-- `From<String> for KString` in a tree with requests/C15-fix-1.diff applied -/
+def ofStringV (bs : Bytes) : KStr := ⟨bs, 0, bs.length, .fullV⟩
 
 /-- `From<StringSlice<usize>> for KString`: 16-bit bounds when they fit -/
 def ofSlice (buf : Bytes) (lo hi : Nat) : KStr :=
@@ -101,6 +106,7 @@ def strGet (bs : Bytes) (a b : Nat) : Option Bytes :=
 def KStr.withBounds (s : KStr) (a b : Nat) : Option KStr :=
   match s.form with
   | .full => some (KStr.ofSlice s.buf a b)
+  | .fullV => if (strGet s.buf a b).isSome then some (KStr.ofSlice s.buf a b) else none
   | .slice =>
     if (strGet s.buf (a + s.lo) (b + s.lo)).isSome ∧ a + s.lo ≤ u16max ∧ b + s.lo ≤ u16max then
       some ⟨s.buf, a + s.lo, b + s.lo, .slice⟩
@@ -115,6 +121,7 @@ def KStr.splitAt (s : KStr) (off : Nat) : Option (KStr × KStr) :=
   let p := s.lo + off
   match s.form with
   | .full => if isBoundary s.buf off then some (KStr.ofSlice s.buf 0 off, KStr.ofSlice s.buf off s.buf.length) else none
+  | .fullV => if isBoundary s.buf off then some (KStr.ofSlice s.buf 0 off, KStr.ofSlice s.buf off s.buf.length) else none
   | .slice => if isBoundary s.buf p ∧ p ≤ u16max then some (⟨s.buf, s.lo, p, .slice⟩, ⟨s.buf, p, s.hi, .slice⟩) else none
   | .large => if isBoundary s.buf p then some (⟨s.buf, s.lo, p, .large⟩, ⟨s.buf, p, s.hi, .large⟩) else none
 
@@ -230,6 +237,7 @@ def popFront (U : UFacts) (s : KStr) : Option (Option (KStr × KStr)) :=
     let g := U.gFirst s.bytes
     match s.form with
     | .full => some ((s.splitAt g).map fun (p, r) => (p, r))
+    | .fullV => some (s.splitAt g)
     | .slice => some (s.splitAt g)
     | .large => some ((s.splitAt g).map fun (p, r) => (KStr.ofSlice p.buf p.lo p.hi, r))
 
@@ -561,7 +569,7 @@ def skipLineWs (U : UFacts) : List Bytes → List Bytes
   | c :: cs => if U.isWhite c ∧ c ≠ [10] then skipLineWs U cs else c :: cs
 
 /-- one escape sequence, the backslash already consumed: `(pushed bytes, rest)` or an error name -/
-def escapeOne (U : UFacts) : List Bytes → Except String (Bytes × List Bytes)
+def escapeOne (U : UFacts) (checked : Bool := false) : List Bytes → Except String (Bytes × List Bytes)
   | [] => .error "UnexpectedEscapeInString"
   | c :: cs =>
     match ascii? c with
@@ -597,7 +605,7 @@ def escapeOne (U : UFacts) : List Bytes → Except String (Bytes × List Bytes)
              if c1 ≠ [123] then .error "UnexpectedCharInNumericEscapeCode"
              else
                let (code, ovf, rest) := hexRun cs1 0 false
-               if ovf then .error "PANIC:overflow"
+               if ovf then .error (if checked then "UnicodeEscapeCodeOutOfRange" else "PANIC:overflow")
                else match rest with
                  | [] => .error "UnterminatedNumericEscapeCode"
                  | c2 :: cs2 =>
@@ -607,23 +615,25 @@ def escapeOne (U : UFacts) : List Bytes → Except String (Bytes × List Bytes)
         else .error "UnexpectedEscapeInString"
 
 /-- escape processing of one `StringLiteral` token (`process_escape_codes = true`) -/
-def unescapeLoop (U : UFacts) : Nat → List Bytes → Except String Bytes
+def unescapeLoop (U : UFacts) (checked : Bool := false) : Nat → List Bytes → Except String Bytes
   | 0, _ => .ok []
   | _ + 1, [] => .ok []
   | fuel + 1, c :: cs =>
     if c = [92] then
-      match escapeOne U cs with
+      match escapeOne U checked cs with
       | .error e => .error e
       | .ok (out, rest) =>
-        match unescapeLoop U fuel rest with
+        match unescapeLoop U checked fuel rest with
         | .error e => .error e
         | .ok tail => .ok (out ++ tail)
     else
-      match unescapeLoop U fuel cs with
+      match unescapeLoop U checked fuel cs with
       | .error e => .error e
       | .ok tail => .ok (c ++ tail)
 
-def unescape (U : UFacts) (lit : Bytes) : Except String Bytes :=
-  unescapeLoop U (lit.length + 1) (charsOf lit)
+/-- `checked = true` describes a tree with requests/C15-fix-3.diff applied (overflow of the `\u{…}`
+accumulator is the out-of-range error instead of a panic) -/
+def unescape (U : UFacts) (lit : Bytes) (checked : Bool := false) : Except String Bytes :=
+  unescapeLoop U checked (lit.length + 1) (charsOf lit)
 
 end KotoVerif.Str
